@@ -9,3 +9,11 @@ def register(check, na):
         "Trusts harness/flt.py (IEEE-754 model, self-tested against numpy in setup) and numpy.nextafter; tie direction of the flush collapse is read from the code (only consistency asserted).",
         "DESIGN.md 2/C14",
     )
+
+    check(
+        "C13",
+        "exhaustive float16 enumeration + structured float32/64 enumeration + Hypothesis-generated wide multiprecision values; round-trip and exact-value oracles",
+        "Every float16 bit pattern and every binade x structured/random mantissas of float32/64 is pushed through fraction, binary-string (independent parser), mpf, expansion, multiword and dispatcher conversions and back; exact value of each intermediate is compared with the value decoded from the bit pattern; Hypothesis generates 1..6-word multiprecision values for expansion/multiword round trips. Exhaustive for float16, exploration elsewhere.",
+        "Trusts harness/flt.py and the meaning of mpmath's _mpf_ tuple; mpf contexts narrower than the float's precision are outside the domain.",
+        "DESIGN.md 2/C13",
+    )
